@@ -83,7 +83,37 @@ def run_reader_families(res, fams, seed, oracle_fn, keep_growth=False, exact=Tru
         _run_cases(res, 'corpus', extra_cases, oracle_fn, keep_growth, exact, None)
 
 
+_JOB = None   # (cases, impl, model, spec, oracle_fn, keep_growth, exact) – inherited by forked workers
+
+
+def _work(rng):
+    """compare / judge the cases with indices in `rng`; returns only small things"""
+    cases, impl, model, spec, oracle_fn, keep_growth, exact = _JOB
+    lo, hi = rng
+    diffs, fails, dom, nt = [], [], 0, []
+    ndiff = 0
+    for i in range(lo, hi):
+        c, o, m, s = cases[i], impl[i], model[i], spec[i]
+        if exact and (EXACT_KINDS is None or c[:1] in EXACT_KINDS) and project(o, keep_growth) != project(m, keep_growth):
+            ndiff += 1
+            if len(diffs) < 10:
+                diffs.append((c, o, m))
+        if oracle_fn is not None:
+            v = oracle_fn(c, o, s)
+            if v is not None:
+                if v.failures and len(fails) < 40:
+                    fails.append((c, v.failures[0], o))
+                if v.domain_end:
+                    dom += 1
+                if v.nontrivial:
+                    nt.append(hashlib.blake2b(c.encode(), digest_size=8).digest())
+        else:
+            nt.append(hashlib.blake2b(c.encode(), digest_size=8).digest())
+    return diffs, ndiff, fails, dom, nt
+
+
 def _run_cases(res, fam, cases, oracle_fn, keep_growth, exact, post=None):
+    global _JOB
     if not cases:
         return
     t = time.time()
@@ -94,33 +124,33 @@ def _run_cases(res, fam, cases, oracle_fn, keep_growth, exact, post=None):
         res.oracle_failures.append((bad, 'the harness process died or hung on this case (abort / endless loop outside a source or policy call)', ''))
         return
     model, spec = run.run_model(cases)
+    n = len(cases)
+    _JOB = (cases, impl, model, spec, oracle_fn, keep_growth, exact)
+    if n >= 40000:
+        import multiprocessing
+        nproc = min(14, os.cpu_count() or 1)
+        step = (n + nproc * 4 - 1) // (nproc * 4)
+        ranges = [(i, min(i + step, n)) for i in range(0, n, step)]
+        with multiprocessing.get_context('fork').Pool(nproc) as pool:
+            parts = pool.map(_work, ranges)
+    else:
+        parts = [_work((0, n))]
+    _JOB = None
     nt = 0
-    for c, o, m, s in zip(cases, impl, model, spec):
-        res.evaluations += 1
-        co = project(o, keep_growth)
-        if exact and (EXACT_KINDS is None or c[:1] in EXACT_KINDS) and co != project(m, keep_growth):
+    for diffs, ndiff, fails, dom, hashes in parts:
+        for d in diffs:
             if len(res.exact_diffs) < 50:
-                res.exact_diffs.append((c, o, m))
-            else:
-                res.exact_diffs.append((c, None, None))
-        if oracle_fn is not None:
-            v = oracle_fn(c, o, s)
-            if v is not None:
-                if v.failures:
-                    if len(res.oracle_failures) < 200:
-                        res.oracle_failures.append((c, v.failures[0], o))
-                if v.domain_end:
-                    res.domain_end += 1
-                if v.nontrivial:
-                    h = hashlib.blake2b(c.encode(), digest_size=8).digest()
-                    if h not in res.distinct:
-                        res.distinct.add(h)
-                        nt += 1
-        else:
-            h = hashlib.blake2b(c.encode(), digest_size=8).digest()
+                res.exact_diffs.append(d)
+        res.exact_diff_count = getattr(res, 'exact_diff_count', 0) + ndiff
+        for f in fails:
+            if len(res.oracle_failures) < 200:
+                res.oracle_failures.append(f)
+        res.domain_end += dom
+        for h in hashes:
             if h not in res.distinct:
                 res.distinct.add(h)
                 nt += 1
+    res.evaluations += n
     if post is not None:
         nt += post(res, fam, cases, impl, spec)
     res.nontrivial += nt
